@@ -157,6 +157,9 @@ func fmtFloat(f float64) string {
 	if math.IsNaN(f) {
 		return "NaN"
 	}
+	if f == 0 {
+		return "0" // -0 and +0 are the same value
+	}
 	return strconv.FormatFloat(f, 'g', -1, 64)
 }
 
